@@ -284,29 +284,51 @@ func c08setup() {
 	c08router(0, false) // keeps otter's clock running for the whole process
 }
 
-// c08calibrate finds an instant at which otter's clock ticks: a 1 s entry (SERVFAIL) disappears exactly then.
+// c08tickOnceMeasure finds an instant at which otter's clock ticks: a 1 s entry (SERVFAIL) disappears exactly then.
+func c08tickOnceMeasure(r *router.VerifRouter) (time.Time, bool) {
+	for attempt := 0; attempt < 5; attempt++ {
+		nonce := c08nonce.Add(1)
+		q := c08question(nonce)
+		m := c08mkMsg(c08name(nonce, 0), 1, dns.RcodeServerFailure, false, nil, nil, nil)
+		r.CacheStore(q, c08remote.Addr(), m)
+		t0 := time.Now()
+		seen := false
+		last := t0
+		for time.Since(t0) < 1500*time.Millisecond {
+			g, _, _ := r.CacheGet(q, c08remote)
+			now := time.Now()
+			if g == nil {
+				if seen && now.Sub(last) < 2*time.Millisecond {
+					return now, true
+				}
+				break // never seen (a tick fell between store and get) or we were descheduled: try again
+			}
+			seen = true
+			last = now
+			dnsmsg.ReleaseMsg(g)
+			time.Sleep(200 * time.Microsecond)
+		}
+	}
+	return time.Time{}, false
+}
+
+// c08calibrate: two independent measurements of the tick phase must agree within 3 ms.
 func c08calibrate() {
 	c08tickOnce.Do(func() {
 		r := c08router(0, false)
-		for attempt := 0; attempt < 5; attempt++ {
-			nonce := c08nonce.Add(1)
-			q := c08question(nonce)
-			m := c08mkMsg(c08name(nonce, 0), 1, dns.RcodeServerFailure, false, nil, nil, nil)
-			r.CacheStore(q, c08remote.Addr(), m)
-			t0 := time.Now()
-			seen := false
-			for time.Since(t0) < 1500*time.Millisecond {
-				g, _, _ := r.CacheGet(q, c08remote)
-				if g == nil {
-					if seen {
-						c08tick = time.Now()
-						return
-					}
-					break // never seen: a tick fell between store and get, try again
-				}
-				seen = true
-				dnsmsg.ReleaseMsg(g)
-				time.Sleep(200 * time.Microsecond)
+		for attempt := 0; attempt < 8; attempt++ {
+			t1, ok1 := c08tickOnceMeasure(r)
+			t2, ok2 := c08tickOnceMeasure(r)
+			if !ok1 || !ok2 {
+				continue
+			}
+			d := t2.Sub(t1) % time.Second
+			if d > time.Second/2 {
+				d = time.Second - d
+			}
+			if d < 3*time.Millisecond {
+				c08tick = t2
+				return
 			}
 		}
 		panic("harness: cannot calibrate the cache clock")
@@ -741,6 +763,9 @@ func c08genHist(r *rand.Rand, timed bool, durMs int, nEv int) string {
 	}
 	for len(evs) < nEv {
 		kind := []string{"s", "s", "g", "g", "g", "q", "q", "n"}[r.Intn(8)]
+		if timed && r.Intn(3) == 0 {
+			kind = "g" // real-time histories are about ageing and expiry: look more often
+		}
 		key := 1 + r.Intn(nKeys)
 		body := ""
 		life := 0
